@@ -20,7 +20,9 @@ def handleLazy : Handler
     let a ← parseArgs args
     let env : Env := Env.ofData d a
     let starts := d.start q.rootName q.rootParams
-    match blockSizes env q starts with
+    -- the pipeline is built (and may panic, e.g. on an invalid regex variable) even when there is no
+    -- starting vertex at all
+    match (interpretFrom env q []).bind (fun _ => blockSizes env q starts) with
     | .ok sizes =>
       let idx := List.range sizes.length
       let per : Nat → List Unit := fun i => List.replicate (sizes.getD i 0) ()
